@@ -48,11 +48,6 @@ def purity(E):
             not extra and not decl and not attrs and not dflt,
             'other names: %s; global/nonlocal: %s; other attributes: %s; non-constant defaults: %s'
             % (extra, sorted(decl), attrs, dflt), props=('C10',))
-    ol, _, src = E.find_def('runner.Runner.ordered_layers')
-    E.syntactic_obligation("Runner.ordered_layers orders by order_by_bases over the registered layer names only "
-                           "(the one hash-ordered container, the dict comprehension, is passed straight to the sort)",
-                           'order_by_bases(layer_names)' in src and 'for layer_name in self.tests_by_layer_name' in src,
-                           props=('C10', 'C03'))
     rt, _, rsrc = E.find_def('runner.Runner.run_tests')
     lst, _, lsrc = E.find_def('listing.Listing.report')
     E.syntactic_obligation("the run loop (Runner.run_tests) and --list-tests (Listing.report) both iterate "
